@@ -818,6 +818,10 @@ class Explorer:
                 ok = len(shape) >= len(expect) and all(shape[i] == expect[i] for i in range(len(expect) - 1)) and shape[len(expect) - 1][0] == expect[-1][0] and shape[len(expect) - 1][1] != expect[-1][1]
                 if not ok: self.diverged += 1; bound = 0
             cs = [c for _, c in atoms]
+            if expect is not None and bound >= 1 and bound <= len(atoms) and atoms[bound - 1][0][0] >= 100 and shape[:bound - 1] == expect[:bound - 1] and shape[bound - 1][0] == expect[-1][0]:
+                # the branching atom is a float->int conversion: it has more than two outcomes. This run took one more of them; ask for a further one
+                # (all values seen so far at this position stay excluded through the prefix) until the solver reports that none is left
+                prio.append((list(prefix) + defs + [z3.Not(cs[bound - 1])], bound, expect, rec.inputs()))
             for k in range(bound, len(atoms)):
                 (prio if atoms[k][0][0] >= 100 else queue).append((defs + cs[:k] + [z3.Not(cs[k])], k + 1, shape[:k + 1], rec.inputs()))
         self.coverage_complete = (not queue) and (not prio) and not self.cover_unknown and self.diverged == 0
